@@ -79,7 +79,10 @@ def session(bindir, rng, tag, tier):
     size = rng.choice([(30, 120), (40, 140), (24, 100), (50, 200)])
     srv = apps.FeedServer([{"segments": [], "interactive": True}])
     srv.start()
-    rd = apps.Radar(bindir, srv.port, ["--lat", str(rx[0]), "--long", str(rx[1])], size=size)
+    # a third of the sessions run with a one-second expiry: aircraft leave, others arrive while fewer are tracked than before
+    # (the totals count every newly added aircraft, whatever the largest simultaneous count was)
+    expiry = rng.random() < 0.34
+    rd = apps.Radar(bindir, srv.port, ["--lat", str(rx[0]), "--long", str(rx[1])] + (["--filter-time", "1"] if expiry else []), size=size)
     try:
         rd.wait_frames(2, 6)
         n_air = rng.randrange(1, 7)
@@ -87,6 +90,20 @@ def session(bindir, rng, tag, tier):
         for i in range(n_air):
             srv.push(aircraft(rng, rx, i % 4, with_position=rng.random() < 0.8))
             rd.wait_frames(rd.frame_count() + 4, 3)
+        if expiry:
+            rd.send(apps.KEYS["F4"])
+            rd.wait_frames(rd.frame_count() + 2, 3)
+            marks.append(rd.frame_count())
+            for rnd in range(rng.randrange(1, 3)):
+                t0 = time.time()
+                while time.time() - t0 < 2.6:
+                    rd.wait_frames(rd.frame_count() + 1, 1)
+                for i in range(rng.randrange(1, n_air + 1)):
+                    srv.push(aircraft(rng, rx, rng.randrange(4), with_position=rng.random() < 0.5))
+                    rd.wait_frames(rd.frame_count() + 3, 3)
+                rd.send(apps.KEYS["F4"])
+                rd.wait_frames(rd.frame_count() + 2, 3)
+                marks.append(rd.frame_count())
         seq = ["F3", "Down", "F4", "F1"]
         for _ in range(rng.randrange(4, 14)):
             seq.append(rng.choice(["+", "-", "Up", "Down", "Left", "Right", "Enter", "F1", "F3", "F4", "F1", "Tab", "Down", "l", "i", "t", "n"]))
@@ -116,7 +133,7 @@ def session(bindir, rng, tag, tier):
         snaps = vt.snapshots(rd.out, size[0], size[1])
         hook = rd.events()
         draws = {e["frame"]: e for e in hook if e.get("ev") == "draw"}
-        out = [{"ev": "session_start", "tag": tag}]
+        out = [{"ev": "session_start", "tag": tag, "expiry": 1 if expiry else 0}]
         judged = set(marks)
         for e in hook:
             if e.get("ev") == "action":
@@ -125,6 +142,8 @@ def session(bindir, rng, tag, tier):
                 out.append(e)
             elif e.get("ev") == "draw" and e["frame"] in judged and e["frame"] in snaps:
                 d = e
+                if expiry:
+                    out.append({"ev": "expiry_possible"})
                 ev = {"ev": "screen", "frame": d["frame"], "tab": d["tab"], "sel": d["sel"], "w": d["w"], "h": d["h"], "scale9": d["scale9"],
                       "lat": d["lat"], "long": d["long"], "clat": d["clat"], "clong": d["clong"], "planes": d["planes"]}
                 ev.update(parse_screen(snaps[d["frame"]], d))
@@ -170,6 +189,7 @@ def run(prop, tier, seed, rep):
                       "table_screens_with_cells": sum(1 for e in scr if e["cells_valid"] == 1),
                       "table_rows_judged": sum(len(e["cells"]) for e in scr if e["cells_valid"] == 1),
                       "stats_screens": sum(1 for e in scr if e["stats_valid"] == 1),
+                      "sessions_with_expiry": sum(1 for e in events if e["ev"] == "session_start" and e.get("expiry")),
                       "map_labels_judged": sum(len(e["labels"]) for e in scr),
                       "screens_by_tab": {str(t): sum(1 for e in scr if e["tab"] == t) for t in range(5)}})
     rep.samples = [scr[0]] if scr else ["(none)"]
